@@ -641,13 +641,19 @@ func (e *SEnv) evalCall(n *SCall) Val {
 		return specBool(And(rec.validTerm(), uf(n.Args[2].(*SStrL).V, SBool, rec.args[idx.V.Int64()].C...)))
 	case "lastret", "lastretb": // first result of the most recent call of T.F; if never called: an arbitrary integer (lastret) / false (lastretb)
 		rec, ok := e.st.lastCall[n.Args[0].(*SStrL).V]
-		if !ok || len(rec.rets) == 0 {
+		ri := 0
+		if len(n.Args) > 1 {
+			if il, isLit := n.Args[1].(*SIntL); isLit && il.V.IsInt64() {
+				ri = int(il.V.Int64())
+			}
+		}
+		if !ok || len(rec.rets) <= ri {
 			if n.Fun == "lastretb" {
 				return specBool(False)
 			}
 			return specInt(Fresh("nevercalled", SInt))
 		}
-		return rec.rets[0]
+		return rec.rets[ri]
 	case "refid": // identity (reference) of a pointer, channel, map or slice value
 		a := e.eval(n.Args[0])
 		if a.T == nil || len(a.C) == 0 {
